@@ -12,7 +12,7 @@ RULE = ('histories of 4-16 operations over a store of 2-3 streams (single-phase 
         'mol/mass/vol views and totals, get_flow/get_total_flow in 8 units + 3 wrong-dimension units, writes through every view '
         '(imol/imass/ivol item, set_flow, set_total_flow, F_mol/F_mass/F_vol setters), interleaved with T/P/phase/phases setters, '
         'link_with (all 8 flag combinations), unlink, copy_like, property-package reset (_reset_thermo and the '
-        'reset_chemicals(container) round trip used by reactions), ms[phase] phase views. Every operation is executed on the real '
+        'reset_chemicals(container) round trip used by reactions). Every operation is executed on the real '
         'objects and on the Coq model; compared per operation: exception class or returned values (1e-9 relative), and after the '
         'history for every stream: kind, phases, T, P, molar data, mass view data, volumetric view data, F_mol/F_mass/F_vol and '
         'id()-level aliasing flags (view rows wrap the current molar dicts in order, TP and phase sources are the stream\'s). '
@@ -20,14 +20,15 @@ RULE = ('histories of 4-16 operations over a store of 2-3 streams (single-phase 
 ASSUMPTIONS = [
     'molar volume oracle Vf chem phase T P > 0 (every chemical has a molar-volume model in the phase) and molecular weights MW > 0',
     'unit factors are positive rationals per unit string with a dimension tag (pint is an oracle); the table used in the correspondence is read from the real AbsoluteUnitsOfMeasure.conversion_factor',
+    'the molar-volume memo of a volumetric view is reused while |dT|,|dP| < 1e-12 (ThermalCondition.in_equilibrium): vol_get is stated at the (T\',P\') of the memo entry, within 1e-12 of the current values; the generators never move T or P by less than 0.5',
     'float rounding not modelled: values compared to 1e-9 relative; branch decisions are exact because inputs are dyadic',
     'sparse storage invariant (stored keys = non-zero entries) is C09\'s; molar rows are modelled as dense vectors',
     'streams related by proxy() (one shared indexer object) are outside this model (C13/C14); each stream owns its indexer',
-    'link_with/copy_like between streams of different property packages, phases setters that drop a non-empty phase, and a package reset that drops a chemical with non-zero flow are outside the modelled domain (C12/C13); the harness skips them',
+    'outside the modelled domain (C12/C13 own them; the model answers XDomain and the harness skips them): link_with / copy_like between streams of different property packages, flow-linking MultiStreams with different phase tuples, copy_like between MultiStreams with different phase sets, expanding the phases of a MultiStream whose data is linked, phases setters that drop or relabel a non-empty phase; a package reset that drops a chemical with non-zero flow; ms[phase] phase views',
     'F_vol reads the mixture molar volume through the stream property memo; the memo is modelled as transparent here (its freshness for non-proxied streams is C14\'s subject) and the ideal mixture rule V = sum z_i V_i is used',
 ]
 TRUSTED = ['model coq/C11/Model.v is hand-written from thermosteam/indexer.py (by_mass, by_volume, reset_chemicals, copy_like, '
-           '_expand_phases, to_material_indexer, to_chemical_indexer, get_phase), base/dictionary_view.py, _stream.py and '
+           '_expand_phases, to_material_indexer, to_chemical_indexer), base/dictionary_view.py, _stream.py and '
            '_multi_stream.py (views, totals, get/set_flow, link_with, unlink, copy_like, _reset_thermo, phase/phases setters, '
            '__getitem__); tie = correspondence check',
            'the harness resolves chemical IDs / phase labels to positions with the real objects before the model runs (key lookup is C10\'s)']
@@ -38,18 +39,13 @@ GIDS = {'A_': 0, 'B_': 1, 'C_': 2, 'D_': 3}
 MWS = [16., 32., 8., 4.]
 PKGS = [['A_', 'B_', 'C_'], ['C_', 'A_', 'D_', 'B_']]
 UNITS = ['kmol/hr', 'mol/s', 'kg/hr', 'lb/hr', 'g/min', 'm3/hr', 'L/min', 'gal/min', 'kg', 'm/s', 'K']
-TS = [256., 320., 384., 298.15, 320. + 2. ** -41]
-PS = [65536., 101325., 131072., 65536. + 2. ** -41]
+TS = [256., 320., 384., 298.15, 320.5]   # distinct values differ by far more than the 1e-12 of in_equilibrium
+PS = [65536., 101325., 131072., 65537.]
 VALS = [F(0), F(1), F(2), F(1, 2), F(3), F(1, 4), F(8), F(-1), F(1, 1024), F(4096), F(5, 2)]
 
-def jitter(x):
-    return math.floor(x * 2.0 ** 41) % 8
-
 def vstub(gid, ph, T, P):
-    """stand-in molar volume: injective in (chemical, base phase), strictly increasing in T and P, dyadic, positive, and
-    deliberately discontinuous (the jitter term looks at the bits of T and P around 2^-41) so that a value computed for a
-    temperature or pressure 4.5e-13 away from the current one is visibly different"""
-    return (1 + gid) / 64 + PHC[ph] / 8 + T / 4096 + P / 2 ** 26 + (jitter(T) + jitter(P)) / 16
+    """stand-in molar volume: injective in (chemical, base phase), strictly increasing in T and P, dyadic, positive"""
+    return (1 + gid) / 64 + PHC[ph] / 8 + T / 4096 + P / 2 ** 26
 
 class VStub:
     def __init__(self, gid, ph):
@@ -549,11 +545,11 @@ def finding_key(case, msg):
     what = 'alias' if 'cached views' in msg else ('vol' if 'vol[' in msg or 'vol view' in msg else ('mass' if 'mass' in msg else 'other'))
     return f'C11:{m.group(1) if m else "?"}:{what}'
 
-# minimised histories of the defects found in the unchanged tree (see pending_fixes/C11_*.diff, C13_3); they run first
-CORPUS_NAMES = ['memo_phase', 'memo_tolerance', 'unlink_shared_cache', 'link_shared_cache', 'expand_phases_cache', 'copy_like_phase_indexer', 'reset_chemicals_container']
+# minimised histories of the defects found in the unchanged tree (all repaired in /repo now: 071a958, efddd9f, 9fbe2c1,
+# a0ac858, 1c6e5d7, 7cf5a9b; they stay as regression cases); they run first
+CORPUS_NAMES = ['memo_phase', 'unlink_shared_cache', 'link_shared_cache', 'expand_phases_cache', 'copy_like_phase_indexer', 'reset_chemicals_container']
 CORPUS = [
     {"streams": [{"kind": "S", "pkg": 0, "phase": "g", "T": 320.0, "P": 65536.0, "flow": [2.0, 0.5, 1.0]}, {"kind": "S", "pkg": 0, "phase": "s", "T": 320.0, "P": 65536.0, "flow": [2.0, 0.5, 1.0]}], "ops": [["read", 0, "vol"], ["phase", 0, "l"], ["read", 0, "vol"]]},   # memo_phase
-    {"streams": [{"kind": "S", "pkg": 0, "phase": "l", "T": 320.0, "P": 65536.0, "flow": [2.0, 0.5, 1.0]}, {"kind": "S", "pkg": 0, "phase": "s", "T": 320.0, "P": 65536.0, "flow": [2.0, 0.5, 1.0]}], "ops": [["read", 0, "vol"], ["T", 0, 320.00000000000045], ["read", 0, "vol"]]},   # memo_tolerance
     {"streams": [{"kind": "S", "pkg": 0, "phase": "l", "T": 320.0, "P": 65536.0, "flow": [2.0, 0.5, 1.0]}, {"kind": "S", "pkg": 0, "phase": "l", "T": 320.0, "P": 65536.0, "flow": [0.0, 0.0, 0.0]}], "ops": [["link", 1, 0, True, True, True], ["unlink", 0], ["read", 1, "mass"], ["set", 0, "mol", 0, "A_", 8.0], ["read", 0, "mass"]]},   # unlink_shared_cache
     {"streams": [{"kind": "S", "pkg": 0, "phase": "l", "T": 320.0, "P": 65536.0, "flow": [2.0, 0.5, 1.0]}, {"kind": "S", "pkg": 0, "phase": "l", "T": 320.0, "P": 65536.0, "flow": [0.0, 3.0, 0.0]}, {"kind": "S", "pkg": 0, "phase": "s", "T": 320.0, "P": 65536.0, "flow": [8.0, 3.0, 0.0]}], "ops": [["link", 2, 1, True, True, True], ["link", 1, 0, True, True, False], ["read", 1, "mass"], ["read", 2, "mass"]]},   # link_shared_cache
     {"streams": [{"kind": "M", "pkg": 0, "phases": ["g", "l"], "T": 320.0, "P": 65536.0, "flow": [[1.0, 2.0, 0.0], [0.0, 0.5, 3.0]]}, {"kind": "S", "pkg": 0, "phase": "s", "T": 320.0, "P": 65536.0, "flow": [2.0, 0.5, 1.0]}], "ops": [["read", 0, "mass"], ["copy_like", 0, 1], ["read", 0, "mass"]]},   # expand_phases_cache
